@@ -577,8 +577,11 @@ def write_evidence(ctx, build, spec):
         'wall_s': round(time.time() - ctx.t0, 2),
         'violations': len(ctx.violations),
     }
-    os.makedirs(os.path.join(VERIF, 'evidence'), exist_ok=True)
-    with open(os.path.join(VERIF, 'evidence', ctx.prop + '.json'), 'w') as f:
+    # evidence/ describes /repo itself; a run against another tree (NOBODD_REPO: a scratch worktree with a seeded
+    # change applied) must not overwrite it
+    edir = 'evidence' if os.path.realpath(os.environ.get('NOBODD_REPO', '/repo')) == '/repo' else 'evidence-scratch'
+    os.makedirs(os.path.join(VERIF, edir), exist_ok=True)
+    with open(os.path.join(VERIF, edir, ctx.prop + '.json'), 'w') as f:
         json.dump(ev, f, indent=1)
 
 
